@@ -1,4 +1,4 @@
 Require Extraction.
 Require Import ExtrOcamlBasic.
-From GR Require Import Base.Bytes Model.CmapModel.
-Extraction "cmap_model.ml" mem_of_list cmap_view bmp_subtable smp_subtable direct cached_build cached lookup4 lookup12 next4 next12 check4 check12 find_subtable.
+From GR Require Import Base.Bytes Model.CmapModel Model.PseudoModel.
+Extraction "cmap_model.ml" mem_of_list cmap_view bmp_subtable smp_subtable direct cached_build cached lookup4 lookup12 next4 next12 check4 check12 find_subtable find_pseudo initial_glyph char_supported.
